@@ -737,6 +737,7 @@ package engine
 //@   trusted-frame
 //@   let rt = resolve(env, t)
 //@   at-store clause.raw requires[stored-term-has-the-bindings-applied] v == simplified(env, rt)
+//@   at-store altIterator.Env requires[alternatives-are-read-in-the-clause-environment] v == env
 //@   ensures[one-stored-entry-per-given-clause] result1 == nil ==> len(result0) == 1
 
 //@ func Call
@@ -1541,3 +1542,9 @@ package engine
 //@   property C11
 //@   trusted
 //@   resolves-before-inspecting
+
+//@ func (*clause).compileBody
+//@   property C03 C10
+//@   nosafety
+//@   at-store seqIterator.Env requires[goals-are-read-in-the-clause-environment] v == env
+//@   at-store seqIterator.Seq requires[the-whole-body] v == body
